@@ -285,6 +285,9 @@ def r4_process_order(cx, mods):
             g = guard_texts(call)
             cx.require((mv, False) in g, call, "invoke is reachable only when nothing is missing (guard 'not %s')" % mv)
             ign = [t for t, p in g if "IGNORE" in t and not p]
+            il_ = _ignore_loop(fn, b)
+            if not ign and il_ is not None and any(il_ is s_ for s_ in fn.body) and fn.body.index(il_) < [i_ for i_, s_ in enumerate(fn.body) if any(x_ is call for x_ in ast.walk(s_))][0]:
+                ign = ["for %s in %s: if %s in %s: raise SkipComponent" % (U(il_.target), short(il_.iter, 50), U(il_.target), b)]
             cx.require(bool(ign), call, "invoke is reachable only after the ignore check failed (guard on IGNORE[self.component])",
                        construct="guards of invoke: %s" % sorted(t for t, p in g))
             cx.require(U(call.args[0]) == b if call.args else False, call, "invoke receives the broker")
@@ -307,6 +310,22 @@ def r4_process_order(cx, mods):
             okf = _ignore_test(s.test, b)
             cx.require(okf and isinstance(s.body[-1], ast.Raise) and "SkipComponent" in U(s.body[-1]), s,
                        "ignore check: any ignored context present in the broker -> raise SkipComponent (the component is not executed at all)")
+
+
+import re as _re
+_IGNORED_SET = _re.compile(r"^(dr\.)?IGNORE(\.get\(self\.component(, (\[\]|\(\)|set\(\)|frozenset\(\)))?\)|\[self\.component\])( or (\[\]|\(\)))?$")
+
+
+def _ignore_loop(fn, b):
+    """The written-out form of the ignore check at the top level of process():
+    for i in <ignored contexts of self.component>: if i in broker: raise SkipComponent()     (nothing else in the loop)"""
+    for st in fn.body:
+        if isinstance(st, ast.For) and _IGNORED_SET.match(U(trace(st.iter, fn) if isinstance(st.iter, ast.Name) else st.iter)) and isinstance(st.target, ast.Name) and not st.orelse:
+            body = [x for x in st.body if not (isinstance(x, ast.Expr) and isinstance(x.value, ast.Call) and (U(x.value.func).startswith("log") or U(x.value.func).startswith("logger")))]
+            if len(body) == 1 and isinstance(body[0], ast.If) and not body[0].orelse and U(body[0].test) == "%s in %s" % (st.target.id, b) \
+                    and isinstance(body[0].body[-1], ast.Raise) and "SkipComponent" in U(body[0].body[-1]) and not has_exit(body[0].body[:-1]):
+                return st
+    return None
 
 
 def _ignore_test(test, b):
